@@ -132,6 +132,34 @@ pub fn run(args: &Args) {
         }).collect();
         out.ev(json!({"ev":"mix","regs":regs.to_vec(),"seen":seen}));
     }
+    // ---- register histories: writes in any order interleaved with generation, every tick recorded
+    for h in 0..n * 2 {
+        let mut ay = chip(AyMode::Mono, *r.pick(&[44100usize, 48000, 22050]));
+        let mut ops: Vec<Value> = vec![];
+        let len = 10 + r.below(30);
+        for k in 0..len {
+            if k + 1 < len && r.chance(3, 4) {
+                let reg = *r.pick(&[0u8, 1, 2, 3, 4, 5, 6, 7, 7, 7, 8, 8, 9, 9, 10, 10, 11, 12, 13, 13]);
+                let val = match reg {
+                    7 => r.u8(),
+                    8 | 9 | 10 => if h % 2 == 0 { *r.pick(&[0u8, 0x0F, 0x10, 0x1F, 0x08]) } else { r.u8() },
+                    11 => *r.pick(&[1u8, 2, 3, 5, 17]),
+                    12 => 0,
+                    13 => r.u8(),
+                    6 => r.u8(),
+                    1 | 3 | 5 => r.u8() & 0x0F,
+                    _ => 1 + r.below(60) as u8,
+                };
+                ay.write_register(reg, val);
+                ops.push(json!(["w", reg, val]));
+            } else {
+                ay.verif_take_levels();
+                let lv = run_ticks(&mut ay, 1 + r.below(150) as usize);
+                ops.push(json!(["run", lv.iter().map(|x| x.to_vec()).collect::<Vec<_>>()]));
+            }
+        }
+        out.ev(json!({"ev":"hist","ops":ops}));
+    }
     // ---- analog side: DAC monotone in volume, pan classes, frequency, bounds
     {
         let mut amps = vec![];
